@@ -665,3 +665,40 @@ pub fn hashset_clone(s: &HashSet<Digest>) -> (r: HashSet<Digest>)
 pub fn hashset_is_subset(a: &HashSet<Digest>, b: &HashSet<Digest>) -> (r: bool)
     ensures r == a@.subset_of(b@)
 { unimplemented!() }
+
+// ============================================================================ leaf payload types of bc-components
+// Each is an opaque type with an uninterpreted CBOR image (its `From<T> for CBOR` in bc-components): [A-leaf-cbor]
+#[verifier::external_body]
+#[derive(Debug)]
+pub struct Salt { _p: () }
+impl Clone for Salt {
+    #[verifier::external_body]
+    fn clone(&self) -> (r: Self) ensures r == *self { unimplemented!() }
+}
+pub uninterp spec fn salt_cbor(x: Salt) -> CBOR;
+impl vstd::std_specs::convert::FromSpecImpl<Salt> for CBOR {
+    open spec fn obeys_from_spec() -> bool { true }
+    open spec fn from_spec(x: Salt) -> Self { salt_cbor(x) }
+}
+impl From<Salt> for CBOR {
+    #[verifier::external_body]
+    fn from(x: Salt) -> Self { unimplemented!() }
+}
+
+// bc_rand::RandomNumberGenerator and Salt constructors: [A-salt-new-*].  What the dependency guarantees about the
+// LENGTH of the salt (f64 arithmetic inside bc-components) is not modelled: the length is an uninterpreted function.
+pub trait RandomNumberGenerator { }
+pub struct SecureRandomNumberGenerator;
+impl RandomNumberGenerator for SecureRandomNumberGenerator { }
+impl Salt {
+    pub uninterp spec fn len_spec(&self) -> nat;
+    #[verifier::external_body]
+    pub fn new_for_size_using<R: RandomNumberGenerator>(size: usize, rng: &mut R) -> (r: Salt) { unimplemented!() }
+    #[verifier::external_body]
+    pub fn new_with_len_using<R: RandomNumberGenerator>(count: usize, rng: &mut R) -> (r: Result<Salt>)
+        ensures r matches Ok(s) ==> s.len_spec() == count, count < 8 ==> r is Err
+    { unimplemented!() }
+    #[verifier::external_body]
+    pub fn new_in_range_using<R: RandomNumberGenerator>(range: &std::ops::RangeInclusive<usize>, rng: &mut R) -> (r: Result<Salt>)
+    { unimplemented!() }
+}
